@@ -95,7 +95,7 @@ func render(v ssa.Value, depth int) string {
 	case *ssa.Global:
 		return x.Name()
 	case *ssa.Function:
-		return x.Name()
+		return NameOf(x)
 	case *ssa.Builtin:
 		return x.Name()
 	case *ssa.Alloc:
@@ -235,7 +235,7 @@ func render(v ssa.Value, depth int) string {
 				}
 				return out
 			}
-			name := f.Name()
+			name := NameOf(f) // the name the rules know the function by (a renamed function keeps its pinned name here)
 			if f.Signature.Recv() != nil && len(args) > 0 {
 				return args[0] + "." + name + "(" + strings.Join(args[1:], ", ") + ")"
 			}
